@@ -12,6 +12,7 @@ import (
 	"path/filepath"
 	"strings"
 	"sync"
+	"sync/atomic"
 	"time"
 )
 
@@ -164,6 +165,8 @@ var solvers = []solverSpec{
 
 var workDir = "/verif/.work"
 
+var queryCounter int64
+
 func firstStatus(out string) string {
 	for _, l := range strings.Split(out, "\n") {
 		l = strings.TrimSpace(l)
@@ -182,7 +185,7 @@ func firstStatus(out string) string {
 func runSolvers(query string, secs int, wantAll bool, only []string) SolverResult {
 	os.MkdirAll(workDir, 0o755)
 	h := sha1.Sum([]byte(query))
-	file := filepath.Join(workDir, fmt.Sprintf("q_%x.smt2", h[:8]))
+	file := filepath.Join(workDir, fmt.Sprintf("q_%x_%d_%d.smt2", h[:8], os.Getpid(), atomic.AddInt64(&queryCounter, 1)))
 	if err := os.WriteFile(file, []byte(query), 0o644); err != nil {
 		return SolverResult{Status: "error", Raw: err.Error()}
 	}
